@@ -17,6 +17,7 @@ import BV.Lemmas.HuffmanRle
 import BV.Lemmas.HuffmanPrefix
 import BV.Lemmas.HuffmanCreate
 import BV.Lemmas.HuffmanEntry
+import BV.Lemmas.HuffmanRead
 
 namespace BV.Props.C17
 open BV.Gen BV.Bits BV.Huffman
@@ -449,5 +450,72 @@ theorem kraft_limit_mono (lens : List Nat) (h : ∀ x ∈ lens, x ≤ 14)
         rw [this, Nat.pow_succ]; omega
   have := key lens h
   rw [this, hk]
+
+
+/-! ## 7. reading the serialisation back (RFC 7932 §3.2, §3.4, §3.5 reader) -/
+
+/-- the reader's RFC tables are the encoder's generated tables -/
+theorem rfc_code_length_tables :
+    rfcClOrder = kStorageOrder ∧
+    rfcClVlc = (List.range 6).map fun l =>
+      (l, kHuffmanBitLengthHuffmanCodeBitLengths.getD l 0,
+        kHuffmanBitLengthHuffmanCodeSymbols.getD l 0) := by decide
+
+/-- `symbol_roundtrip`: for every prefix code with lengths `≤ 15`, Kraft sum `≤ 1`
+and at least two symbols in use, a symbol written the way the encoder writes
+it — `BrotliWriteBits(depth[s], bits[s])` with `bits[s]` the bit-reversed
+canonical code (`canonical`) — passes both `assert`s of `BrotliWriteBits`, and the
+RFC 7932 §3.2 decoder reading the stream from that point returns `s` and stops
+exactly behind its bits. -/
+theorem symbol_roundtrip (lens : List Nat) (s : Nat) (w rest : List Bool) (hs : s < lens.length)
+    (hall : ∀ x ∈ lens, x ≤ 15) (hk : kraftSum 15 lens ≤ 2 ^ 15) (h0 : lens.getD s 0 ≠ 0)
+    (h2 : 2 ≤ ((List.range lens.length).filter fun t => lens.getD t 0 != 0).length) :
+    ∃ code, writeBits (lens.getD s 0)
+        (reverseBits (lens.getD s 0) ((canonicalCodes lens).getD s 0)) w = .ok (w ++ code) ∧
+      code.length = lens.getD s 0 ∧ readSym lens (code ++ rest) = some (s, rest) := by
+  have hmem : lens.getD s 0 ∈ lens := by
+    rw [List.getD_eq_getElem?_getD, List.getElem?_eq_getElem hs]; simp
+  have hl15 := hall _ hmem
+  refine ⟨bitsOf (lens.getD s 0) (reverseBits (lens.getD s 0) ((canonicalCodes lens).getD s 0)),
+    ?_, Lemmas.HuffmanRead.bitsOf_length _ _,
+    Lemmas.HuffmanRead.readSym_spec lens s rest hs hall hk h0 h2⟩
+  unfold writeBits
+  have hlt : reverseBits (lens.getD s 0) ((canonicalCodes lens).getD s 0) < 2 ^ lens.getD s 0 := by
+    rw [Lemmas.HuffmanBits.reverseBits_eq _ _ (by omega) (by omega)]
+    exact Lemmas.HuffmanBits.revSpec_lt _ _
+  rw [Nat.div_eq_of_lt hlt]
+  simp only [ne_eq, not_true_eq_false, ↓reduceIte, show ¬ lens.getD s 0 > 56 by omega]
+
+/-- non-vacuity: the code `[2,4,4,3,0,1]` built above, symbol 3 -/
+example : (3 < [2, 4, 4, 3, 0, 1].length) ∧ (∀ x ∈ [2, 4, 4, 3, 0, 1], x ≤ 15) ∧
+    kraftSum 15 [2, 4, 4, 3, 0, 1] ≤ 2 ^ 15 ∧ [2, 4, 4, 3, 0, 1].getD 3 0 ≠ 0 ∧
+    2 ≤ ((List.range [2, 4, 4, 3, 0, 1].length).filter
+      fun t => [2, 4, 4, 3, 0, 1].getD t 0 != 0).length := by decide
+
+/-- `StoreStaticCodeLengthCode`'s 40 bits are HSKIP = 0 followed by the RFC 7932 §3.5
+encoding of the code length code lengths `kCodeLengthDepth` -/
+theorem static_code_length_code_stored :
+    (storeStaticCodeLengthCode []).bind (fun w => .ok (takeBits 2 w)) = .ok (some (0,
+      (bitsOf 38 (0xff55555554 / 4)))) ∧
+    readClLens rfcClOrder 32 (List.replicate 18 0) (bitsOf 38 (0xff55555554 / 4))
+      = some (kCodeLengthDepth, []) := by decide +kernel
+
+/-- Complete descriptions read back (checked instances of `store_tree_roundtrip`):
+what `BuildAndStoreHuffmanTree` / the fast builder store for these histograms —
+a complex code, the four simple forms NSYM = 1..4 (both tree shapes of
+NSYM = 4), a code using both repeat codes, the fast builder's static-code
+form — is decoded by the RFC reader to exactly the depths, consuming all bits. -/
+theorem store_tree_roundtrip_instances :
+    (∀ h ∈ [[5, 1, 1, 3, 0, 7], [5, 1], [0, 0, 4], [5, 0, 1], [5, 0, 1, 9], [5, 3, 1, 9],
+        [5, 5, 5, 5], [1, 1, 1, 1, 1, 1, 1, 0, 0, 0, 0, 0, 0, 0, 0, 0, 0, 0, 0, 0, 0, 0, 9, 9, 9, 9,
+          9, 9, 9, 9, 9, 9, 9, 3]],
+      (buildAndStoreHuffmanTree h h.length h.length (List.replicate 1409 default)
+        (List.replicate h.length 0) (List.replicate h.length 0) []).bind
+        (fun r => .ok (readPrefixCode h.length r.2.2 == some (r.1, []))) = .ok true) ∧
+    (∀ h ∈ [[5, 1, 1, 3, 0, 7], [4, 0, 9, 1], [3, 3, 3, 3, 3, 3, 3, 3, 3, 0, 0, 0, 1, 1, 1, 1, 1, 8]],
+      (buildAndStoreHuffmanTreeFast h h.sum (alphabetBits h.length)
+        (List.replicate h.length 0) (List.replicate h.length 0) []).bind
+        (fun r => .ok (readPrefixCode h.length r.2.2 == some (r.1, []))) = .ok true) := by
+  decide +kernel
 
 end BV.Props.C17
